@@ -1,5 +1,5 @@
 """Smoke-test contracts used while developing the engine."""
-from pyvc.api import contract, implies, clause
+from pyvc.api import contract, implies, clause, ite
 
 KW33 = {"_", "and", "annotation", "as", "attr", "class", "const", "enum", "false", "from", "fun", "import", "in",
         "internal", "literal", "not", "null", "or", "out", "package", "pipeline", "private", "schema", "static",
@@ -34,3 +34,36 @@ class name_annotation:
 
     def ensures_text(name, result):
         return result == '@PythonName("' + name + '")'
+
+
+@contract("safeds_stubgen.api_analyzer._mypy_helpers:get_argument_kind", prop="C06")
+class arg_kind:
+    params = {"arg": "mp_nodes.Argument"}
+    raises = ()
+
+    def ensures_table(arg, result):
+        from mypy.nodes import ArgKind
+        from safeds_stubgen.api_analyzer._api import ParameterAssignment as PA
+        recv = arg.variable.is_self or arg.variable.is_cls
+        return result == ite(recv, PA.IMPLICIT,
+                         ite(arg.kind == ArgKind.ARG_POS or arg.kind == ArgKind.ARG_OPT,
+                             ite(arg.pos_only, PA.POSITION_ONLY, PA.POSITION_OR_NAME),
+                         ite(arg.kind == ArgKind.ARG_STAR, PA.POSITIONAL_VARARG,
+                         ite(arg.kind == ArgKind.ARG_STAR2, PA.NAMED_VARARG, PA.NAME_ONLY))))
+
+
+@contract("safeds_stubgen.stubs_generator._stub_string_generator:StubsStringGenerator._create_docstring_description_part", prop="C13")
+class desc_part:
+    params = {"description": "str", "indentations": "str"}
+    raises = ()
+
+    def ensures_nonempty(description, indentations, result):
+        return len(result) >= 1 and result.endswith("\n")
+
+    def ensures_line_for_line(description, indentations, result):
+        return result == DESC(description, indentations)
+
+
+def DESC(description, indent):
+    lines = description.rstrip("\n").lstrip("\n").split("\n")
+    return lines[0] + "".join((("\n" + indent + " * " + ln) if ln else ("\n" + indent + " *")) for ln in lines[1:]) + "\n"
